@@ -86,6 +86,30 @@ def entries(curve, vk, digest, msg):
     E.append(Entry("verify.der.compressed_lazy", lambda b: vk_c.verify_digest(b, digest, sigdecode=util.sigdecode_der, allow_truncate=True), (BadSignatureError,), lambda r: r is True or _bad()))
     E.append(Entry("verify.string.der_precomputed", lambda b: vk_d.verify(b, msg, hashfunc=hashlib.sha256, sigdecode=util.sigdecode_string), (BadSignatureError,), lambda r: r is True or _bad()))
 
+    # degenerate keys that the loaders let through (a point with y = 0 exists on curves of even order; points decoded without validation):
+    # whatever verification makes of them, it ends in True or BadSignatureError - also after precompute()
+    from vf.ref import nt as _nt
+    p_, a_, b_ = int(curve.curve.p()), int(curve.curve.a()), int(curve.curve.b())
+    special = []
+    if curve.name == "SECP112r2":
+        x0 = 0xb1fd8de127d4656b573eb513984d
+        if (x0 ** 3 + a_ * x0 + b_) % p_ == 0:
+            special.append(("y0_compressed", lambda: ecdsa.VerifyingKey.from_string(b"\x02" + x0.to_bytes(curve.baselen if False else (p_.bit_length() + 7) // 8, "big"), curve, hashlib.sha256)))
+    from ecdsa.ellipticcurve import PointJacobi as _PJ
+    gx = int(curve.generator.x())
+    special.append(("unvalidated_y0_object", lambda: ecdsa.VerifyingKey.from_public_point(_PJ(curve.curve, gx, 0, 1, n), curve, hashlib.sha256, validate_point=False)))
+    special.append(("unvalidated_identity_object", lambda: ecdsa.VerifyingKey.from_public_point(_PJ(curve.curve, 3, 5, 0, n), curve, hashlib.sha256, validate_point=False)))
+    for sname, mkkey in special:
+        for pre in (None, False, True):
+            try:
+                vk_s = mkkey()
+                if pre is not None:
+                    vk_s.precompute(lazy=pre)
+            except Exception:
+                continue
+            E.append(Entry("verify.der.key_%s_%s" % (sname, {None: "plain", False: "precomputed", True: "lazy"}[pre]),
+                           lambda b, vk_s=vk_s: vk_s.verify_digest(b, digest, sigdecode=util.sigdecode_der, allow_truncate=True), (BadSignatureError,), lambda r: r is True or _bad()))
+
     def ecdh(method, with_curve):
         def f(b):
             e = ECDH(curve=curve if with_curve else None)
@@ -236,6 +260,8 @@ def _run(ctx, rng, kind, **kw):
                 if not mname.startswith(kw["grp"]):
                     continue
                 ents = [E[t] for t in targets]
+                if mname == "sig_der":
+                    ents += [e_ for nm_, e_ in E.items() if nm_.startswith("verify.der.key_")]
                 is_pem = "pem" in mname
                 # every truncation, appended bytes, empty
                 cases = [("truncate", blob[:i]) for i in range(0, len(blob), 1 if len(blob) < 300 or ctx.tier != "quick" else 2)] + [("append", blob + b"\x00"), ("append", blob + blob), ("empty", b"")]
@@ -257,8 +283,10 @@ def _run(ctx, rng, kind, **kw):
                     if len(blob) < 400:
                         for k2, mut in gen.der_self_nesting(blob, (1, 2, 40, 1100) if ctx.tier == "quick" else (1, 2, 40, 1100, 3000)):
                             cases.append((k2.split(":x")[0] + (":deep" if int(k2.split(":x")[1]) > 100 else ":shallow"), mut))
-                for k2, data in cases:
+                for ci, (k2, data) in enumerate(cases):
                     for ent in ents:
+                        if ent.name.startswith("verify.der.key_") and ci % 9:
+                            continue          # the degenerate-key entries see every ninth case
                         feed(ctx, ent, data, k2, stats, curve.name)
                 # also feed every valid blob to every *other* entry point (type confusion)
                 for ent in E.values():
@@ -441,6 +469,9 @@ def _run(ctx, rng, kind, **kw):
                 (nm, "leading_text", b"some text\n" + pem), (nm, "trailing_text", pem + b"more text\n"), (nm, "doubled", pem + pem),
                 (nm, "non_ascii", pem.replace(b"M", b"\xc3\xa9", 1)), (nm, "nul_inside", pem[:40] + b"\x00" + pem[40:]),
                 (nm, "spaces", pem.replace(b"\n", b" \n ")), (nm, "empty", b""), (nm, "junk", b"junk"), (nm, "only_dashes", b"-----"),
+                (nm, "ws_only_line_spaces", pem.replace(b"\n", b"\n   \n", 1)), (nm, "ws_only_line_tab", pem.replace(b"\n", b"\n\t\n", 2)), (nm, "trailing_ws_line", pem + b"    \n"),
+                (nm, "crlf_blank_line", pem.replace(b"\n", b"\r\n").replace(b"\r\n", b"\r\n\r\n", 1)), (nm, "crlf_everywhere_blank", pem.replace(b"\n", b"\r\n\r\n")),
+                (nm, "ws_only_all", b" \n\t\n \r\n"), (nm, "form_feed_lines", pem.replace(b"\n", b"\n\x0c\n", 1)), (nm, "vertical_tab", pem.replace(b"\n", b"\x0b\n", 1)),
                 (nm, "begin_only", lines[0]), (nm, "begin_only_nl", lines[0] + b"\n"),
                 (nm, "str_input", pem.decode()), (nm, "str_junk", "junk"), (nm, "str_nonascii", pem.decode().replace("M", "\u00e9", 1)),
                 # text read from a file with errors="surrogateescape": an undecodable byte becomes a lone surrogate, which no codec will encode
